@@ -1,5 +1,6 @@
 import GV.Driver.Common
 import GV.Model.Ctrlflow
+import GV.Model.Cache
 open GV GV.Ctrlflow
 namespace GV.Driver
 
@@ -31,6 +32,12 @@ def cfOps : Handler := fun st f =>
     let h : DelegateH := { key := cfNats key, keyIdxs := cfNats keyIdxs, localKeys := cfNats localKeys, delegateIdx := cfNats dIdx, ks := [] }
     let encs := cfNats enc
     some (st, cfShow ((List.range encs.length).map fun i => encs[i]! ^^^ h.delegateKey (h.delegateIdx[i]!)))
+  -- cacheidsm gaid deps(,) kindCompile kindAsm -> pkg asm dbgcompile dbgasm  (sha256 of the model's key pre-images)
+  | ["cacheidsm", gaid, deps, kc, ka] =>
+    let g := unhex gaid
+    let ds := if deps == "-" then [] else (deps.splitOn ",").map unhex
+    let h := fun (b : List UInt8) => toHex (GV.Sha256.sumList b)
+    some (st, " ".intercalate [h (GV.Cache.pkgCachePre g ds), h (GV.Cache.goAsmPre g), h (GV.Cache.debugPre g (unhex kc)), h (GV.Cache.debugPre g (unhex ka))])
   | _ => none
 
 end GV.Driver
